@@ -510,10 +510,10 @@ SignalHandler::SignalHandler(BasicSolver &s)
   solver_.set_interrupter(this);
   signal_message_ptr_ = message_.c_str();
   signal_message_size_ = static_cast<unsigned>(message_.size());
+  stop_ = 0;   // before installing the handler: an interrupt must not be erased
   std::signal(SIGINT, HandleSigInt);
   std::signal(SIGTERM, HandleSigInt);
   MP_VERIF_SIGPOINT("ctor.after_signal");
-  stop_ = 0;
   MP_VERIF_SIGPOINT("ctor.end");
 }
 
